@@ -221,8 +221,8 @@ func runClosest(vec map[string]interface{}) map[string]interface{} {
 			ts[i].seq = string(b)
 		}
 	}
-	qFa := renderFasta(qs, 0, false)
-	tFa := renderFasta(ts, 0, false)
+	qFa := renderFasta(qs, gIntD(vec, "wrapq", 0), false)
+	tFa := renderFasta(ts, gIntD(vec, "wrapt", 0), gBool(vec, "crlft"))
 	measure := gStr(vec, "measure")
 	n := gIntD(vec, "n", 0)
 	dthou := gIntD(vec, "d", -1) // max distance: for snp an integer, for raw thousandths
